@@ -124,7 +124,9 @@ fn fault_object(o: &Obs, rep: &mut Report, env: &Env, item: &Item, rng: &mut Rng
     let mut rec = RecordingWriter { sink: vec![], calls: vec![] };
     let reference = match lib(|| obj.write(env, &mut rec)) {
         Ok(Ok(_)) => rec.sink.clone(),
-        _ => { rep.count("skipped", "reference_encoding_failed (C14 reports it)"); return; }
+        // "neither direction panics" holds for every writer, the in-memory one included (the value of the encoding is C14's subject)
+        Err(p) => { viol(o, rep, &ty, "in_memory_write", "panic", format!("serialize into an in-memory writer panicked: {}", p.0), &item.label); return; }
+        Ok(Err(_)) => { rep.count("skipped", "reference_encoding_failed (C14 reports it)"); return; }
     };
     let expected = match lib(|| obj.expected(env)) { Ok(e) => e, Err(_) => { rep.count("skipped", "expand_failed"); return; } };
     let len = reference.len();
@@ -231,6 +233,18 @@ fn one_case(cfg: &Cfg, grp: &str, case: u64, rng: &mut Rng, rep: &mut Report, la
     rep.count("params", &format!("{}|n={}|k={}", spec.scheme_name(), spec.n, spec.qs.len()));
     for &q in &spec.qs { rep.count("coeff_prime_bytes", &byte_width(q).to_string()); }
     let o = Obs { cfg, grp, case, spec: &spec };
+    // history: the context is a long-lived object shared by every (de)serialization. Which object goes through it FIRST is
+    // varied: in odd cases the ciphertext with the fewest RNS components (lowest level), in even cases whatever the type order
+    // brings (usually a first-level or key-level object) — anything the library initialises lazily per context sees both orders.
+    if case % 2 == 1 {
+        let lowest = zoo.items.iter().filter(|it| !it.out_of_domain).filter_map(|it| match &it.obj { Obj::Ct(c, _) => Some((c.coeff_modulus_size(), it)), _ => None }).min_by_key(|x| x.0);
+        if let Some((k, it)) = lowest {
+            match lib(|| encode(&it.obj, &zoo.env)) {
+                Err(p) => viol(&o, rep, &it.obj.type_name(), "in_memory_write", "panic", format!("serialize into an in-memory writer panicked (first object through a fresh context, {} components): {}", k, p.0), &it.label),
+                Ok(_) => rep.count("history_prelude", &format!("lowest-level ciphertext first ({} of {} components)", k, spec.qs.len())),
+            }
+        }
+    }
     // per case: a bounded number of instances of every type/format, chosen at random; encodings of at most 8 KiB
     let cap = if large { 1 } else { cfg.pick(2usize, 4usize) };
     let mut by_type: BTreeMap<String, Vec<usize>> = BTreeMap::new();
@@ -241,7 +255,9 @@ fn one_case(cfg: &Cfg, grp: &str, case: u64, rng: &mut Rng, rep: &mut Report, la
         for i in idx {
             if taken >= cap { break; }
             let item = &zoo.items[i];
-            match encode(&item.obj, &zoo.env) { Ok(Ok((_, b))) if b.len() <= max_bytes => {}, Ok(Ok(_)) => { rep.count("skipped", if large { "encoding_above_600KB" } else { "encoding_above_8KiB" }); continue; } _ => continue }
+            match encode(&item.obj, &zoo.env) { Ok(Ok((_, b))) if b.len() <= max_bytes => {}, Ok(Ok(_)) => { rep.count("skipped", if large { "encoding_above_600KB" } else { "encoding_above_8KiB" }); continue; }
+                Err(p) => { viol(&o, rep, &item.obj.type_name(), "in_memory_write", "panic", format!("serialize into an in-memory writer panicked: {}", p.0), &item.label); continue; }
+                Ok(Err(_)) => { rep.count("skipped", "reference_encoding_failed (C14 reports it)"); continue; } }
             fault_object(&o, rep, &zoo.env, item, rng, max_offsets);
             taken += 1;
         }
